@@ -147,6 +147,9 @@ def explore(ctx):
                     fails.append('principal axes are not ordered by decreasing variance')
             # translation
             t = [rng.randint(-5, 9) for _ in range(nd)]
+            if rng.random() < 0.3:
+                # far from the origin of the array: centring must come before squaring
+                t = [rng.choice([10 ** 6, 2 ** 26, -(10 ** 7), 2 ** 30, 12345678]) + x for x in t]
             st2 = stat_of([([a + b for a, b in zip(p, t)], w) for p, w in pts], nd)
             if not all(close(a, b + c) for a, b, c in zip(st2.mom1(), o1, t)):
                 fails.append('first moment does not move with a translation')
